@@ -46,6 +46,11 @@ def roundSigNoCarry (N : Rat) (d : Nat) (e : Int) : Except Err Rat :=
     let p : Rat := ((pref * pow10 ((d : Int) - 1) + 1 / 2).floor : Int)
     .ok (sign * (p * pow10 (-(d : Int) + 1)) * pow10 e)
 
+/-- `Round` with the guard proposed for audit item P12 (pending in /repo, /tmp/fixprop-C17-2): zero significant
+    digits are rejected like more than seven (on HEAD `Round(x, 0)` is `inf`: `digits − 1` wraps in `unsigned`) -/
+def roundSigG (N : Rat) (d : Nat) (e : Int) : Except Err Rat :=
+  if d = 0 then .error .diag else roundSig N d e
+
 /-- the exponents `floor(log10 a)` may deliver for `a > 0`: the exact one, or its neighbour when
     `a` is within `10⁻¹⁵` (relative) of the power of ten that separates them -/
 def Admissible (a : Rat) (e : Int) : Prop :=
